@@ -139,6 +139,10 @@ inductive Op where
   /-- the process is killed (or ends after a STOP) and a new one is started: new store, new
   `Logger` and `Log` objects, same configuration -/
   | reboot
+  /-- the process is killed IN THE MIDDLE of control `c`, after `k` of the primitives the control
+  performs on this log's files (between the rename and the reopen of a rotation, between the header
+  write and the flush, …), and a new process is started on what it left -/
+  | die (c : Ctl) (k : Nat)
 deriving DecidableEq, Repr, Inhabited
 
 structure St where
@@ -259,11 +263,29 @@ def St.reboot (s : St) : St :=
     stamp := 0, flushStamp := 0, cycleStamp := 0, status := .stopped, logged := false, first := true,
     hasPaths := false }
 
+/-- the records written by a trace -/
+def recW : List Prim → List Rec
+  | [] => []
+  | .write ls :: r => recsOf ls ++ recW r
+  | _ :: r => recW r
+
+/-- control `s ↦ s'` cut short after `k` of its primitives, then a new process: the files are what
+the first `k` primitives made of them (the buffer dies with the process), the numbering goes on
+after the records whose `write` call was made -/
+def St.cutMid (s s' : St) (k : Nat) : St :=
+  let tr := s'.trace.take (s.trace.length + k)
+  { s' with fs := s'.fs0.applyAll tr, trace := tr, seq := (recW tr).length }
+
+def St.cut (s s' : St) (k : Nat) : St := (St.cutMid s s' k).reboot
+
+def St.die (s : St) (c : Ctl) (k : Nat) : St := St.cut s (s.send c) k
+
 def St.step (s : St) : Op → St
   | .advance d => { s with stamp := s.stamp + d }
   | .batch b => { s with batch := b }
   | .ctl c => s.send c
   | .reboot => s.reboot
+  | .die c k => s.die c k
 
 def St.exec (s : St) : List Op → St
   | [] => s
@@ -279,6 +301,7 @@ def proto : Status → List Op → Bool
   | st, .ctl .run :: r => (st != .stopped) && proto .running r
   | _, .ctl .stop :: r => proto .stopped r
   | _, .reboot :: r => proto .stopped r
+  | st, .die c _ :: r => (match c with | .run => st != .stopped | _ => true) && proto .stopped r
   | st, _ :: r => proto st r
 
 /-- `Logger.__init__`: the constructor arguments as stored (periods in units of 1/8 s) -/
